@@ -595,6 +595,24 @@ def search(ctx):
             worst['max_gap_distance_at_reported_parameters_rel_scale'] = max(worst['max_gap_distance_at_reported_parameters_rel_scale'], round(info['at_reported_params'], 6))
         rec(fs, {'kind': 'segments', 'mode': mode, 'bez1': gen.seg_json(a), 'bez2': gen.seg_json(b)})
         if len(samples) < 2: samples.append({'bez1': gen.seg_json(a), 'bez2': gen.seg_json(b), 'mode': mode})
+    # operands with a HISTORY: a Line piece produced by flattening a curve (it carries a back-pointer to that curve; as an operand it is just the line),
+    # a half produced by splitAtTime
+    for _ in range(ctx.n(40, 600)):
+        par = rseg(rng, rng.choice([3, 4]), False); L = par.length
+        if not (20 < L < 1500): continue
+        if rng.random() < 0.7:
+            dd = L / rng.randint(2, 5); pieces = par.flatten(dd)
+            if len(pieces) < 2: continue
+            j_ = rng.randrange(len(pieces)); a = pieces[j_]; hist = {'parent': gen.seg_json(par), 'flatten': dd, 'piece': j_}
+        else:
+            ts_ = rng.uniform(0.2, 0.8); j_ = rng.randrange(2); a = par.splitAtTime(ts_)[j_]; hist = {'parent': gen.seg_json(par), 'splitAtTime': ts_, 'piece': j_}
+        b = rseg(rng, rng.choice([2, 3, 4]), False)
+        if rng.random() < 0.5:      # near the part of the parent that is NOT the piece
+            far = par.pointAtTime(0.0 if j_ else 1.0); b = gen.KINDS[len(b.points)](*[q - b.points[0] + far + P(rng.uniform(3, 30), rng.uniform(3, 30)) for q in b.points])
+        swap = rng.random() < 0.5
+        ev += 1; dist['history-operand'] = dist.get('history-operand', 0) + 1
+        rec(check_pair(b, a) if swap else check_pair(a, b), {'kind': 'segments', 'mode': 'history-operand', 'bez1': gen.seg_json(b if swap else a), 'bez2': gen.seg_json(a if swap else b),
+                                                             'history': dict(hist, operand=2 if swap else 1)})
     for _ in range(ctx.n(50, 1200)):
         ints = rng.random() < 0.45
         mode = rng.choice(['disjoint', 'disjoint', 'touch', 'cross', 'identical', 'degenerate', 'near'])
@@ -621,7 +639,14 @@ def replay(ctx, payload):
     i = payload['input']
     if i is None: return {'fails': True, 'observed': 'no concrete input recorded'}
     if i['kind'] == 'segments':
-        f = check_pair(gen.seg_from_json(i['bez1']), gen.seg_from_json(i['bez2']))
+        s1, s2 = gen.seg_from_json(i['bez1']), gen.seg_from_json(i['bez2'])
+        h = i.get('history')
+        if h:       # one operand is the product of an operation on a parent curve: rebuild it the same way (it may carry state a freshly built one has not)
+            par = gen.seg_from_json(h['parent'])
+            pc = par.flatten(h['flatten'])[h['piece']] if 'flatten' in h else par.splitAtTime(h['splitAtTime'])[h['piece']]
+            if h.get('operand') == 2: s2 = pc
+            else: s1 = pc
+        f = check_pair(s1, s2)
     else:
         f = check_paths([gen.seg_from_json(s) for s in i['path1']], [gen.seg_from_json(s) for s in i['path2']])
     return {'fails': bool(f), 'observed': f}
